@@ -1410,6 +1410,112 @@ theorem tracking_ends_only_by_lru_eviction (g : GStore) (f n f' n' c : Nat) (e :
       refine ⟨hk, h2, h3, ?_⟩
       rw [hv, track_unique g.entries f n e v hnd he (List.mem_of_getElem? hv) hvk]
 
+/-! ### group senders: clauses 2 and 3 over whole histories, on the store
+
+`group_forward_accepted` / `group_behind_window_rejected` are one-step facts relative to the
+window's `max`. Over a whole tracking period (any interleaving with other senders, `store_period`)
+`max` IS the wire value of the largest position accepted so far (`GInv`), so they become: a counter
+ahead of the largest accepted value by 1 … 2³¹−1 (cyclically) is accepted; one behind it by more
+than the window (and up to 2³¹) is rejected. -/
+
+/-- window state after a sequence of counters (the state `runW` threads) -/
+def stateW : RxState → List Nat → RxState
+  | s, [] => s
+  | s, c :: cs => stateW (postRecvRoll s c).1 cs
+
+theorem runG_state (cs : List Nat) : ∀ (g : G) (w : List Nat), (runG g w cs).1.s = stateW g.s cs := by
+  induction cs with
+  | nil => intro g w; rfl
+  | cons c cs ih => intro g w; simp only [runG, stateW]; rw [ih, (stepG_erases g c).2]
+
+/-- `store_period` with the window state: while the sender stays tracked its entry holds exactly the
+state of its own window run in isolation over its own counters -/
+theorem store_period_state (f n : Nat) : ∀ (ms : List Msg) (g : GStore) (e : GEntry),
+    (keys g.entries).Nodup → track g.entries f n = some e → StillTracked f n g ms →
+    ∃ e', track (storeRun g ms).1.entries f n = some e' ∧ e'.rx = stateW e.rx (own f n ms) := by
+  intro ms
+  induction ms with
+  | nil => intro g e _ he _; exact ⟨e, he, rfl⟩
+  | cons m ms ih =>
+    intro g e hnd he hst
+    obtain ⟨f', n', c⟩ := m
+    have hnd' := store_keys_nodup g f' n' c hnd
+    simp only [StillTracked] at hst
+    simp only [storeRun, own]
+    by_cases hk : f' = f ∧ n' = n
+    · obtain ⟨rfl, rfl⟩ := hk
+      obtain ⟨_, e', he', hrx⟩ := (store_step_own g f' n' c).1 e he
+      simp only [and_self, ↓reduceIte, stateW]
+      obtain ⟨e'', h1, h2⟩ := ih _ e' hnd' he' hst.2
+      exact ⟨e'', h1, by rw [h2, hrx]⟩
+    · simp only [hk, ↓reduceIte]
+      rcases store_step_other g f n f' n' c hk hnd with h | h
+      · exact ih _ e hnd' (by rw [h]; exact he) hst.2
+      · have := hst.1; rw [h.1] at this; simp at this
+
+/-- the verdict of the store on the NEXT message of a sender that has stayed tracked since its
+trust-first admission is the verdict of its own window, whose state is that of `runG` -/
+theorem store_own_next (g : GStore) (f n first : Nat) (mid : List Msg) (c : Nat)
+    (hnd : (keys g.entries).Nodup) (hun : track g.entries f n = none)
+    (hst : StillTracked f n (g.postRecv f n first).1 mid) :
+    ((storeRun (g.postRecv f n first).1 mid).1.postRecv f n c).2 =
+      (postRecvRoll (runG (gInit first) [first] (own f n mid)).1.s c).2 := by
+  obtain ⟨_, e', he', hrx⟩ := (store_step_own g f n first).2 hun
+  obtain ⟨e'', h1, h2⟩ := store_period_state f n mid _ e' (store_keys_nodup g f n first hnd) he' hst
+  rw [((store_step_own _ f n c).1 e'' h1).1, h2, hrx, runG_state]
+  rfl
+
+/-- **Clause 3 for a tracked group sender, whole histories, on the store**: after any tracking
+period (any interleaving with other senders), `G.P` is the largest position the sender's window
+accepted, the window's `max` is its wire value, and a counter AHEAD of it by 1 … 2³¹−1 (cyclically)
+is accepted by the store. -/
+theorem store_newer_accepted (g : GStore) (f n first : Nat) (mid : List Msg) (c : Nat)
+    (hnd : (keys g.entries).Nodup) (hun : track g.entries f n = none)
+    (hst : StillTracked f n (g.postRecv f n first).1 mid)
+    (hf : first < U32) (hc : ∀ c ∈ own f n mid, c < U32) :
+    let G' := (runG (gInit first) [first] (own f n mid)).1
+    (∀ a ∈ G'.acc, a ≤ G'.P) ∧ G'.P ∈ G'.acc ∧ G'.s.max = G'.P % U32 ∧
+    (c ≠ G'.s.max → (c + U32 - G'.s.max) % U32 ≤ I32MAX →
+      ((storeRun (g.postRecv f n first).1 mid).1.postRecv f n c).2 = true) := by
+  intro G'
+  have h := (runG_inv (own f n mid) (gInit first) [first] (first + U32) hc (ginv_init first hf)
+    (by
+      have h0 : (first + U32) % U32 = first := by rw [U32_eq] at *; omega
+      simp only [gInit, List.map_cons, List.map_nil, h0])).1
+  refine ⟨fun a ha => (h.range a ha).2, h.maxIn, h.maxEq, fun hne hfw => ?_⟩
+  rw [store_own_next g f n first mid c hnd hun hst]
+  exact group_forward_accepted _ c h.synced hne hfw
+
+/-- **Clause 2 for a tracked group sender, whole histories, on the store**: a counter BEHIND the
+largest accepted value by more than the window (cyclically: not ahead by ≤ 2³¹−1 and more than 16
+behind) is rejected by the store and changes nothing in the sender's window. -/
+theorem store_behind_window_rejected (g : GStore) (f n first : Nat) (mid : List Msg) (c : Nat)
+    (hnd : (keys g.entries).Nodup) (hun : track g.entries f n = none)
+    (hst : StillTracked f n (g.postRecv f n first).1 mid)
+    (hf : first < U32) (hc : ∀ c ∈ own f n mid, c < U32) :
+    let G' := (runG (gInit first) [first] (own f n mid)).1
+    ¬ (c + U32 - G'.s.max) % U32 ≤ I32MAX → ¬ (G'.s.max + U32 - c) % U32 ≤ L →
+      ((storeRun (g.postRecv f n first).1 mid).1.postRecv f n c).2 = false := by
+  intro G' hfw hbw
+  have h := (runG_inv (own f n mid) (gInit first) [first] (first + U32) hc (ginv_init first hf)
+    (by
+      have h0 : (first + U32) % U32 = first := by rw [U32_eq] at *; omega
+      simp only [gInit, List.map_cons, List.map_nil, h0])).1
+  rw [store_own_next g f n first mid c hnd hun hst]
+  exact (group_behind_window_rejected _ c h.synced hfw hbw).1
+
+/-- non-vacuity: sender (1,0) admitted at 2³²−3 on a store that already tracks (2,7), other traffic in
+between; it rolled over to 2; then 40 (ahead) is accepted and 2³²−30 (more than 16 behind 2) is not -/
+example :
+    let g := (storeRun GStore.empty [(2, 7, 1)]).1
+    let mid : List Msg := [(2, 7, 2), (1, 0, 2), (3, 3, 3)]
+    (keys g.entries).Nodup ∧ track g.entries 1 0 = none ∧
+    StillTracked 1 0 (g.postRecv 1 0 4294967293).1 mid ∧
+    (runG (gInit 4294967293) [4294967293] (own 1 0 mid)).1.s.max = 2 ∧
+    ((storeRun (g.postRecv 1 0 4294967293).1 mid).1.postRecv 1 0 40).2 = true ∧
+    ((storeRun (g.postRecv 1 0 4294967293).1 mid).1.postRecv 1 0 4294967266).2 = false := by decide
+
+
 /-! ## Non-vacuity of the hypotheses of the whole-history theorems -/
 
 /-- `tracking_ends_only_by_lru_eviction`: a full store (16 senders), sender (1,0) tracked and heard
